@@ -118,6 +118,7 @@ def transfers(profile, cfg, adj):
         alts.append(st.fixed_dictionaries({
             'type': st.just('upload'), 'src': st.sampled_from(srcs),
             'size': sz, 'start': st.sampled_from([0, 0, 1, 5, 17]),
+            'plain': st.sampled_from([False, False, True]),
             'extra': extra, 'subs': subs}))
     if 'download' in types:
         alts.append(st.fixed_dictionaries({
@@ -276,7 +277,8 @@ def e2e_cases(draw, profile):
         'cfg': cfg, 'adj': adj,
         'exec': draw(st.sampled_from(profile.get('execs', ['thr', 'thr',
                                                            'thr', 'serial']))),
-        'rcc': 'when_required',
+        'rcc': draw(st.sampled_from(profile.get(
+            'rccs', ['when_required']))),
         'transfers': ts,
         'scripts': {'body': draw(body_scripts(profile)),
                     'stream': draw(stream_scripts(profile))},
@@ -284,6 +286,8 @@ def e2e_cases(draw, profile):
         'end': draw(ends(profile)),
         'sched': draw(schedules()),
     }
+    if profile.get('shared_extra') and draw(st.booleans()):
+        case['shared_extra'] = True
     if profile.get('agg'):
         case['agg'] = draw(st.sampled_from([None, 1, 4, 16]))
     if profile.get('cancels'):
@@ -444,7 +448,7 @@ def legacy_cases(draw, ops=('upload', 'download'), with_faults=False):
         if op == 'upload':
             sites = ['s3.create_multipart_upload', 's3.upload_part',
                      's3.upload_part', 's3.complete_multipart_upload',
-                     's3.put_object', 'fs.read']
+                     's3.put_object', 'fs.read', 'fs.stat', 'fs.stat']
         else:
             sites = ['s3.head_object', 's3.get_object', 'fs.open', 'fs.write',
                      'fs.rename', 'stream.read']
@@ -455,3 +459,55 @@ def legacy_cases(draw, ops=('upload', 'download'), with_faults=False):
             st.sampled_from(['before', 'before', 'after'])),
             min_size=1, max_size=2))
     return case
+
+
+# ---------------------------------------------------------------- real scale
+MiB = 1024 * 1024
+
+
+@st.composite
+def real_scale_cases(draw, types=('upload', 'download', 'copy')):
+    """Unscaled ChunksizeAdjuster (5 MiB..5 GiB, 10 000 parts) and MiB-sized
+    payloads: a thin class that keeps the scaled-limits trick honest."""
+    thr = draw(st.sampled_from([5 * MiB, 6 * MiB, 8 * MiB]))
+    chunk = draw(st.sampled_from([1 * MiB, 5 * MiB, 5 * MiB + 1, 6 * MiB]))
+    eff = max(chunk, 5 * MiB)
+    size = draw(st.sampled_from([
+        thr - 1, thr, thr + 1, 2 * eff - 1, 2 * eff, 2 * eff + 1,
+        eff + 5 * MiB + 7]))
+    typ = draw(st.sampled_from(list(types)))
+    t = {'type': typ, 'size': size,
+         'subs': draw(st.sampled_from([[], [{'size': False,
+                                             'raise_done': False,
+                                             'reenter': {}}]]))}
+    if typ == 'upload':
+        t['src'] = draw(st.sampled_from(['path', 'seek', 'nonseek']))
+        t['start'] = draw(st.sampled_from([0, 3]))
+        t['extra'] = {}
+    elif typ == 'download':
+        t['dst'] = draw(st.sampled_from(['path', 'seek', 'nonseek']))
+        t['preexist'] = None
+    else:
+        t['version'] = False
+        t['src_client'] = False
+        t['extra'] = {}
+    cfg = {'multipart_threshold': thr, 'multipart_chunksize': chunk,
+           'io_chunksize': 256 * 1024,
+           'max_request_concurrency': draw(st.integers(1, 3)),
+           'max_submission_concurrency': 1,
+           'max_request_queue_size': 10, 'max_submission_queue_size': 10,
+           'max_io_queue_size': 10, 'num_download_attempts': 2,
+           'max_in_memory_upload_chunks': 2,
+           'max_in_memory_download_chunks': 2}
+    rew = draw(st.sampled_from([[], [], [3 * MiB], [eff]]))
+    return {'cfg': cfg, 'adj': None, 'exec': 'thr', 'rcc': 'when_required',
+            'transfers': [t], 'real_scale': True, 'max_steps': 400000,
+            'scripts': {'body': [{'preflight': False, 'sign': False,
+                                  'blocks': [1024 * 1024], 'rewinds': rew,
+                                  'chunked': 0}],
+                        'stream': [{'short': [300000, 0, 70000],
+                                    'fault_at': draw(st.sampled_from(
+                                        [None, None, 3 * MiB + 5])),
+                                    'fault': 'retryable:1'}]},
+            'faults': [], 'end': {'how': 'shutdown', 'wait_results': True},
+            'sched': draw(schedules(30))}
